@@ -173,10 +173,13 @@ class Case:
                 b"\n@@ -" + cnt + b" +1 @@\n" + b"".join(b"-" + ln for ln in old) + b"+" + CONTENT[k["c"]])
 
     # ------------------------------------------------------------------ operations
-    def run(self, op: str, entries):
+    def run(self, op: str, entries, mv=None):
         """Execute one abstract step; returns (outcome, exception text)."""
         try:
-            getattr(self, "op_" + op)(entries)
+            if op == "MV":
+                self.op_MV(mv)
+            else:
+                getattr(self, "op_" + op)(entries)
             return "ok", ""
         except InvalidPathError as e:
             return "refused", f"{type(e).__name__}: {e}"
@@ -247,6 +250,34 @@ class Case:
         for path, k in self.flat_files(entries):
             porcelain.apply_patch(self.repo, io.BytesIO(self.file_patch(path, k)))
 
+    def op_MV(self, mv):
+        """One rename / copy patch (git format; the a/ b/ prefixes are what strip=1 removes), optionally
+        with a hunk that replaces the source's lines by "B".  The source is only read here."""
+        src, dst = self.raw_name(mv["src"]), self.raw_name(mv["dst"])
+        word = b"rename" if mv["mode"] == "ren" else b"copy"
+        out = (b"diff --git a/" + src + b" b/" + dst + b"\nsimilarity index %d%%\n" % (50 if mv["hunks"] else 100) +
+               word + b" from a/" + src + b"\n" + word + b" to b/" + dst + b"\n")
+        if mv["hunks"]:
+            full = os.path.join(os.fsencode(self.W), src)
+            data = None
+            if os.path.isfile(full):
+                with open(full, "rb") as f:
+                    data = f.read()
+            else:
+                try:
+                    idx = self.repo.open_index()
+                    if src in idx:
+                        data = self.repo.object_store[idx[src].sha].data
+                except Exception:  # noqa: BLE001
+                    data = None
+            if not data or not data.endswith(b"\n"):
+                data = CONTENT["A"]
+            old = data.splitlines(keepends=True)
+            cnt = b"1" if len(old) == 1 else b"1,%d" % len(old)
+            out += (b"--- a/" + src + b"\n+++ b/" + dst + b"\n@@ -" + cnt + b" +1 @@\n" +
+                    b"".join(b"-" + ln for ln in old) + b"+" + CONTENT["B"])
+        porcelain.apply_patch(self.repo, io.BytesIO(out))
+
     def op_RM(self, entries):
         porcelain.reset(self.repo, "mixed", self._commit_for(entries))
 
@@ -282,7 +313,8 @@ class Case:
                     with open(full, "rb") as f:
                         data = f.read()
                     perm = stat.S_IMODE(st.st_mode)
-                    cls = "M" if data.startswith(b"gitdir: ") else RCONTENT.get(data, "?" + data[:16].hex())
+                    cls = ("M" if data.startswith(b"gitdir: ") else "G" if data == self.cfg0 else
+                           RCONTENT.get(data, "?" + data[:16].hex()))
                     out[pth] = {"t": "f", "c": cls, "x": bool(perm & 0o100)}
                     if perm not in (0o644, 0o755):
                         out[pth]["perm"] = oct(perm)
